@@ -100,6 +100,8 @@ struct History {
         st.note(wo.generated_seed ? "generated-seed" : "fixed-descriptors", " keypool=", wo.keypool, " scenario=", scenario);
 
         WalletSim ws(sim, wo);
+        // CWallet::CreateNew gives every new wallet this flag (descriptor caches are complete from birth); WalletSim builds the wallet by hand
+        ws.wallet().SetWalletFlag(wallet::WALLET_FLAG_LAST_HARDENED_XPUB_CACHED);
         if (!wo.generated_seed) for (auto& d : WalletSimFixedDescriptors()) model.AddString(d, /*persistent=*/true);
         model.Refresh(ws.wallet());
         Mark("begin");
@@ -134,7 +136,7 @@ struct History {
             st.note("import-hardened(wpkh)");
         };
         if (scenario >= 2) { do_encrypt(); }
-        if (scenario == 3 && !wo.generated_seed) { do_unlock(); import_hard(); if (s.boolean()) { ws.wallet().Lock(); locked = true; st.note("lock"); } }
+        if (scenario == 3 && !wo.generated_seed) { do_unlock(); import_hard(); ws.wallet().Lock(); locked = true; st.note("lock"); }
 
         lap("scenario-set-up");
         std::vector<std::unique_ptr<wallet::ReserveDestination>> reservations;
@@ -143,8 +145,9 @@ struct History {
             reservations.clear();
         };
         for (unsigned op = 0; op < nops && !s.exhausted(); ++op) {
-            const unsigned kind = s.range<unsigned>(0, 15);
-            const OutputType type = hard && s.chance(128) ? OutputType::BECH32 : ALL_TYPES[s.index(4)];
+            unsigned kind = s.range<unsigned>(0, 15);
+            OutputType type = hard && s.chance(128) ? OutputType::BECH32 : ALL_TYPES[s.index(4)];
+            if (hard && locked && s.chance(100)) { kind = 15; type = OutputType::BECH32; } // drain the hardened range of the locked wallet
             st.mix(uint64_t(kind));
             if (kind <= 4 || kind == 5) {
                 const bool internal = kind == 5 || (kind == 4 && s.boolean());
